@@ -571,6 +571,49 @@ def outside_hypothesis(rng, count):
     return out
 
 
+def nested_failure_ties(rng, count):
+    """C10/C05/C04: a critical nested scheduler fails (its critical job raises, or its own
+    timeout fires) in the very instant a non-critical job of the parent raises, every offset
+    of 0-7 loop iterations: the parent must abort whichever it looks at last"""
+    out = []
+    idx = 0
+    while len(out) < count:
+        kb = idx % 8
+        idx += 1
+        t = rng.choice([1, 2])
+        by_timeout = rng.random() < 0.25
+        deep = rng.random() < 0.3
+        inner = S([J(), J()] if rng.random() < 0.5 else [J()])
+        nested = S([inner]) if deep else inner
+        kids = [nested, J(), J()]
+        if rng.random() < 0.5:
+            kids.append(J(0))
+        shape = tree(S(kids))
+        kind, parent, _ = shape
+        n = len(kind)
+        scheds = [i for i in range(n) if kind[i] == "sched"]
+        innermost = scheds[-1]
+        mem = [i for i in range(n) if parent[i] == innermost + 1]
+        top_jobs = [i for i in range(n) if kind[i] == "job" and parent[i] == 1]
+        dur = [rng.choice([t + 1, t + 2]) if kind[i] == "job" else 0 for i in range(n)]
+        outc, crit, tmo = ["ok"] * n, [False] * n, [-1] * n
+        for s in scheds[1:]:
+            crit[s] = True
+        if by_timeout:
+            tmo[innermost] = t
+        else:
+            dur[mem[0]], outc[mem[0]], crit[mem[0]] = t, "exc", True
+        # the non-critical failure of the parent, in the same instant
+        dur[top_jobs[0]], outc[top_jobs[0]], crit[top_jobs[0]] = t, "exc", False
+        sc = _mk(rng, shape, dur=dur, out=outc, crit=crit, tmo=tmo,
+                 cdur=[rng.choice([0, 0, 1]) for _ in range(n)], pure=rng.random() < 0.2)
+        k = [0] * n
+        k[top_jobs[0]] = kb
+        sc["harness"]["k"] = k
+        out.append(sc)
+    return out
+
+
 def failed_nested_successors(rng, count):
     """C03/C10/C01: a non-critical nested scheduler fails (a critical job inside raises,
     or its own timeout fires) and jobs of the parent are waiting behind it"""
@@ -738,13 +781,15 @@ STRUCTURED = {
     "C03": [(window_failures, 0.25), (deadlines, 0.1), (window_ties, 0.12), (failed_nested_successors, 0.1),
             (cancel_cliques, 0.08), (empty_stages, 0.06), (outside_hypothesis, 0.04)],
     "C04": [(critical_instants, 0.15), (deadlines, 0.2), (crit_chains, 0.15), (simultaneous_failures, 0.15)],
-    "C05": [(critical_instants, 0.35), (simultaneous_failures, 0.15), (nested_abort_ties, 0.1), (between_waits, 0.06)],
+    "C05": [(critical_instants, 0.3), (simultaneous_failures, 0.15), (nested_abort_ties, 0.1), (between_waits, 0.06),
+            (nested_failure_ties, 0.05)],
     "C06": [(window_failures, 0.3), (simultaneous_failures, 0.1)],
     "C07": [(window_failures, 0.25), (tie_groups, 0.1), (critical_instants, 0.1), (window_ties, 0.15),
             (sibling_windows, 0.06)],
     "C08": [(deadlines, 0.45), (nested_abort_ties, 0.1), (between_waits, 0.05)],
     "C09": [(forevers, 0.45), (empty_stages, 0.04), (cancel_cliques, 0.04)],
-    "C10": [(crit_chains, 0.25), (nested_gap, 0.15), (failed_nested_successors, 0.15), (sibling_windows, 0.08)],
+    "C10": [(crit_chains, 0.2), (nested_gap, 0.12), (failed_nested_successors, 0.13), (sibling_windows, 0.08),
+            (nested_failure_ties, 0.08)],
     "C11": [(shutdown_grid, 0.3), (deadlines, 0.15), (nested_gap, 0.1), (nested_abort_ties, 0.1), (between_waits, 0.06),
             (cancel_cliques, 0.05)],
     "C12": [(joins, 0.15), (small_perms, 0.15), (tie_groups, 0.15), (window_ties, 0.25)],
@@ -781,7 +826,9 @@ def scenarios(prop, count, seed):
         hrn["emptymsg"] = rng.random() < 0.3
         hrn["rterr"] = rng.random() < 0.3
         hrn["lateattr"] = rng.random() < 0.2
-        hrn["awaitable"] = rng.random() < 0.2
+        hrn["awaitable"] = rng.choice([0, 0, 0, 0, 0, 0, 1, 1, 2, 2])
+        hrn["baseexc"] = rng.random() < 0.2     # job exceptions that do not derive from Exception
+        hrn["awtjobs"] = rng.random() < 0.25    # Job(<awaitable that is not a coroutine object>)
         hrn["watch"] = rng.random() < 0.2       # schedulers are given a Watch (debug time display)
         hrn["peek"] = rng.random() < 0.2        # the read-only API is used while the run goes on
         hrn["zerowin"] = rng.random() < 0.3     # jobs_window=0 for "no limit" (instead of None)
@@ -793,10 +840,14 @@ def scenarios(prop, count, seed):
             sc["cfg"]["xshut"] = rng.random() < 0.7 and admissible(sc["cfg"])
         elif rng.random() < 0.15 and admissible(sc["cfg"]):
             sc["cfg"]["xshut"] = True
+        # now and then the clean-up of a cancelled body fails: it ends by raising something else
+        if rng.random() < {"C04": 0.12, "C14": 0.12, "C11": 0.1, "C05": 0.08, "C08": 0.08}.get(prop, 0.05):
+            sc["cfg"]["cout"] = ["exc" if sc["cfg"]["kind"][j] == "job" and rng.random() < 0.5 else "cancelled"
+                                 for j in range(n)]
         # now and then shutdown() has been called on the tree before the run
         if rng.random() < {"C04": 0.08, "C13": 0.08, "C08": 0.05, "C11": 0.05}.get(prop, 0.02):
             sc["cfg"]["preshut"] = True
-        if prop in ("C06", "C03", "C14", "C05", "C11") and rng.random() < 0.25:
+        if prop in ("C06", "C03", "C14", "C05", "C11", "C01", "C10", "C12", "C13") and rng.random() < 0.25:
             hrn["verbose"] = True
         if hrn.get("verbose") == "keep":
             hrn["verbose"] = True
